@@ -397,13 +397,18 @@ def to_fixed(lines, rng, labelled_do=True, conservative=True):
             pieces[-1].append(t)
             width += len(t[1])
         comment = ln.comment
+        # tight break: nothing but the line break separates the two tokens (no trailing blank, continuation text starts in column 7)
+        tight = len(pieces) > 1 and rng.random() < 0.3
         for pn, piece in enumerate(pieces):
             if pn == 0:
                 prefix = label + " " + indent
             else:
-                prefix = "     " + rng.choice(MARKS) + "   "
+                prefix = "     " + rng.choice(MARKS) + ("" if tight else "   ")
                 while piece and piece[0][0] == "ws":
                     piece = piece[1:]
+            if tight and pn < len(pieces) - 1:
+                while piece and piece[-1][0] == "ws":
+                    piece = piece[:-1]
             t = prefix
             marks = []
             for k, s, oc, ol in piece:
